@@ -24,8 +24,8 @@ ANCHOR_FILES = ["src/ropt/optimization/_optimizer.py", "src/ropt/ensemble_evalua
 RULE = ("case = (mode, V, mask, method/script, options); non-trivial if the mask fixes at least one variable and at least one evaluator row was checked; distinct key = case; "
         "monitor_counters: rows/entries checked, gradient entries checked, nested hand-offs")
 ASSUMPTIONS = ["initial values inside the bounds", "nested cases use no variable transform (domain convention of the hand-off is user code)"]
-REQUIRED = {"quick": {"evaluator_rows_checked": 20000, "fixed_entries_checked": 30000, "gradient_fixed_entries_checked": 2000, "result_vectors_checked": 5000, "algorithm_vectors_checked": 3000, "nested_handoffs": 150, "nested_rows_after_handoff": 1000, "explicit_start_vector": 100, "gradients_with_all_realizations_failed": 25, "step_reruns_without_the_nested_plan": 40, "with_relative_perturbations": 50, "__nontrivial__": 300},
-            "thorough": {"evaluator_rows_checked": 315045, "fixed_entries_checked": 523595, "gradient_fixed_entries_checked": 60000, "result_vectors_checked": 150000, "algorithm_vectors_checked": 100000, "nested_handoffs": 5000, "nested_rows_after_handoff": 28068, "explicit_start_vector": 903, "gradients_with_all_realizations_failed": 400, "step_reruns_without_the_nested_plan": 800, "with_relative_perturbations": 400, "__nontrivial__": 4000}}
+REQUIRED = {"quick": {"evaluator_rows_checked": 20000, "fixed_entries_checked": 30000, "gradient_fixed_entries_checked": 2000, "result_vectors_checked": 5000, "algorithm_vectors_checked": 3000, "nested_handoffs": 150, "nested_rows_after_handoff": 1000, "explicit_start_vector": 100, "gradients_with_all_realizations_failed": 25, "step_reruns_without_the_nested_plan": 40, "with_relative_perturbations": 50, "requests_in_another_number_type": 80, "__nontrivial__": 300},
+            "thorough": {"evaluator_rows_checked": 315045, "fixed_entries_checked": 523595, "gradient_fixed_entries_checked": 60000, "result_vectors_checked": 150000, "algorithm_vectors_checked": 100000, "nested_handoffs": 5000, "nested_rows_after_handoff": 28068, "explicit_start_vector": 903, "gradients_with_all_realizations_failed": 400, "step_reruns_without_the_nested_plan": 800, "with_relative_perturbations": 400, "requests_in_another_number_type": 800, "__nontrivial__": 4000}}
 BOUNDS = {"quick": {"Vmax": 4}, "thorough": {"Vmax": 5}}
 METHODS = ["scripted", "slsqp", "l-bfgs-b", "nelder-mead", "powell", "de", "de_vec"]
 
@@ -249,6 +249,12 @@ def run_case(case, obs):
             xf = x0 + rng.normal(size=nfree) * rng.choice([0.01, 0.3, 2.0])
             what = rng.choice(["f", "g", "c", "j"])
             obs.count("algorithm_vectors_checked")
+            dt = str(rng.choice(["f8", "f8", "f4", "i8"]))
+            if dt != "f8":
+                # an algorithm working in single precision or on an integer grid: the type of its request arrays says nothing
+                # about the fixed variables, which keep their values exactly
+                xf = np.round(xf).astype(np.int64) if dt == "i8" else xf.astype(np.float32)
+                obs.count("requests_in_another_number_type")
             if what == "f":
                 fun(xf)
             elif what == "g" and callable(jac):
